@@ -194,14 +194,17 @@ Proof.
 Qed.
 
 (* ---------- patch *)
-Lemma patch_inv c s p n :
+Lemma patch_v_inv vt c s p n :
   Inv c s ->
-  exists s' b, patch c s p n = Ok s' (RBool b) /\ Inv c s' /\ keeps_live s s' /\
+  exists s' b, patch_v vt c s p n = Ok s' (RBool b) /\
+               ((b = false -> s_puniv s' = s_puniv s) /\
+                (forall q, q <> p -> s_puniv s' q = s_puniv s q) /\ s_pdead s' = s_pdead s) /\
+               Inv c s' /\ keeps_live s s' /\
                (b = true <-> on_universe s' p n).
 Proof.
-  intros I. unfold patch.
+  intros I. unfold patch_v.
   destruct (port_of c s p) as [pc|] eqn:Epo.
-  2:{ exists s, false. split; [reflexivity|]. split; [exact I|]. split; [apply keeps_live_refl|].
+  2:{ exists s, false. split; [reflexivity|]. split; [split; [intros H; first [discriminate | reflexivity] | split; [intros q _; reflexivity | reflexivity]]|]. split; [exact I|]. split; [apply keeps_live_refl|].
       split; [discriminate|]. intros (o & u & H & _). exfalso.
       destruct (inv_pok _ _ I p o H) as (Hd & pc & Hc). unfold port_of in Epo. rewrite Hd, Hc in Epo. discriminate. }
   assert (s_pdead s p = false /\ port_cfg c p = Some pc) as (Hdead & Hcfg).
@@ -220,11 +223,11 @@ Proof.
     - exists false. split; [reflexivity|]. split; [discriminate|].
       intros _ (o2 & u2 & A & _). congruence. }
   rewrite Ecur. destruct cur.
-  { exists s, true. split; [reflexivity|]. split; [exact I|]. split; [apply keeps_live_refl|]. tauto. }
+  { exists s, true. split; [reflexivity|]. split; [split; [intros H; first [discriminate | reflexivity] | split; [intros q _; reflexivity | reflexivity]]|]. split; [exact I|]. split; [apply keeps_live_refl|]. tauto. }
   specialize (Cf eq_refl). clear Ct Ecur.
   destruct (device_refuses_spec c s pc n (inv_plive _ _ I)) as (rb & Erb & Srb). rewrite Erb.
   destruct rb.
-  { exists s, false. split; [reflexivity|]. split; [exact I|]. split; [apply keeps_live_refl|].
+  { exists s, false. split; [reflexivity|]. split; [split; [intros H; first [discriminate | reflexivity] | split; [intros q _; reflexivity | reflexivity]]|]. split; [exact I|]. split; [apply keeps_live_refl|].
     split; [discriminate | intros H; contradiction]. }
   specialize (Srb eq_refl).
   destruct (get_or_create n s) as [o' s1] eqn:Eg.
@@ -259,7 +262,9 @@ Proof.
     destruct (K4 o' u3 Hu3) as (u4 & Hu4 & Nu4).
     assert (keeps_live s s4) as K04.
     { apply (keeps_live_trans s s1); [exact K1|]. apply (keeps_live_trans s1 s3); [exact K3 | exact K4]. }
-    exists s4, true. split; [reflexivity|]. split; [|split; [exact K04|]].
+    exists s4, true. split; [reflexivity|].
+    split; [split; [discriminate | split; [intros q Hq; rewrite Epu; apply upd_neq; exact Hq | rewrite R4, Q4; unfold s2; cbn; exact P4]]|].
+    split; [|split; [exact K04|]].
     + constructor.
       * rewrite Epu. apply (Wf_ext c s4 (upd (upd (s_puniv s) p None) p (Some o'))); [|exact W4].
         intros x. unfold upd. destruct (x =? p); reflexivity.
@@ -299,7 +304,9 @@ Proof.
     destruct (cand_if_inactive_fields o' u' s1) as (F1 & F2 & F3 & F4 & F5 & F6 & F7).
     assert (keeps_live s (cand_if_inactive o' u' s1)) as K.
     { intros x u H. rewrite F5. exact (K1 x u H). }
-    exists (cand_if_inactive o' u' s1), false. split; [reflexivity|]. split; [|split; [exact K|]].
+    exists (cand_if_inactive o' u' s1), false. split; [reflexivity|].
+    split; [split; [intros _; rewrite F1, P1; reflexivity | split; [intros q _; rewrite F1, P1; reflexivity | rewrite F4, P4; reflexivity]]|].
+    split; [|split; [exact K|]].
     + constructor.
       * rewrite F1, P1. apply cand_close_wf; assumption.
       * intros q o H. rewrite F1, P1 in H. destruct (inv_plive _ _ I q o H) as (u & Hu).
@@ -315,19 +322,45 @@ Proof.
       rewrite (Hpres o u0 Hu0) in B. congruence.
 Qed.
 
+Lemma patch_inv c s p n :
+  Inv c s ->
+  exists s' b, patch c s p n = Ok s' (RBool b) /\ Inv c s' /\ keeps_live s s' /\
+               (b = true <-> on_universe s' p n).
+Proof.
+  intros I. destruct (patch_v_inv (fun pc => veto pc n) c s p n I) as (s' & b & E & _ & R).
+  exists s', b. split; [exact E | exact R].
+Qed.
+
 (* ---------- unpatch *)
+Lemma unpatch_v_inv vt c s p :
+  Inv c s -> exists s' b, unpatch_v vt c s p = Ok s' (RBool b) /\ Inv c s' /\ keeps_live s s' /\
+    (forall q, q <> p -> s_puniv s' q = s_puniv s q) /\
+    (b = true -> s_puniv s' p = None) /\ (b = false -> s_puniv s' = s_puniv s) /\
+    s_pdead s' = s_pdead s.
+Proof.
+  intros I. unfold unpatch_v. destruct (port_of c s p) as [pc|] eqn:Epo.
+  2:{ exists s, false. split; [reflexivity|]. split; [exact I|]. split; [apply keeps_live_refl|].
+      split; [reflexivity|]. split; [discriminate|]. split; reflexivity. }
+  assert (port_cfg c p = Some pc) as Hcfg.
+  { unfold port_of in Epo. destruct (s_pdead s p); [discriminate | exact Epo]. }
+  destruct (unpatch_core c s p pc I Hcfg) as (s1 & E & I1 & K & (P1 & P2 & P3 & P4)).
+  destruct (s_puniv s p) as [o|] eqn:Eq.
+  - destruct (vt pc).
+    { exists s, false. split; [reflexivity|]. split; [exact I|]. split; [apply keeps_live_refl|].
+      split; [reflexivity|]. split; [discriminate|]. split; reflexivity. }
+    rewrite E. eexists _, true. split; [reflexivity|]. split; [exact I1|].
+    split; [intros x u H; cbn; exact (K x u H)|].
+    split; [intros q Hq; cbn; rewrite upd_neq by exact Hq; rewrite P1; reflexivity|].
+    split; [intros _; cbn; apply upd_eq|]. split; [discriminate | exact P4].
+  - exists s, true. split; [reflexivity|]. split; [exact I|]. split; [apply keeps_live_refl|].
+    split; [reflexivity|]. split; [intros _; exact Eq|]. split; [discriminate | reflexivity].
+Qed.
+
 Lemma unpatch_inv c s p :
   Inv c s -> exists s' b, unpatch c s p = Ok s' (RBool b) /\ Inv c s' /\ keeps_live s s'.
 Proof.
-  intros I. unfold unpatch. destruct (port_of c s p) as [pc|] eqn:Epo.
-  2:{ exists s, false. split; [reflexivity|]. split; [exact I | apply keeps_live_refl]. }
-  assert (port_cfg c p = Some pc) as Hcfg.
-  { unfold port_of in Epo. destruct (s_pdead s p); [discriminate | exact Epo]. }
-  destruct (unpatch_core c s p pc I Hcfg) as (s1 & E & I1 & K & SP).
-  destruct (s_puniv s p) as [o|] eqn:Eq.
-  - rewrite E. eexists _, true. split; [reflexivity|]. split; [exact I1|].
-    intros x u H. cbn. exact (K x u H).
-  - exists s, true. split; [reflexivity|]. split; [exact I | apply keeps_live_refl].
+  intros I. destruct (unpatch_v_inv (fun _ => false) c s p I) as (s' & b & E & I' & K & _).
+  exists s', b. tauto.
 Qed.
 
 (* ---------- priorities *)
